@@ -111,6 +111,39 @@ impl World {
         }
     }
 
+    /// A world whose source is the given tree (band numbering starts at b0000).
+    pub fn with_spec(tag: &str, spec: Snapshot, params: GenParams, seed: u64) -> World {
+        let sc = Scratch::new(tag);
+        let src = sc.join("src");
+        let arch = sc.join("arch");
+        cs::create_archive(&arch);
+        tree::sync_to_disk(None, &spec, &src).expect("materialise");
+        let snap = tree::snapshot(&src).expect("snapshot");
+        World {
+            sc,
+            src,
+            arch,
+            spec,
+            snap,
+            clock: Clock::new(),
+            graveyard: Vec::new(),
+            gen_state: GenState { mode_cursor: 0 },
+            params,
+            sources: BTreeMap::new(),
+            seed,
+            steps_done: 0,
+            log_seed: seed,
+            first_band: 0,
+        }
+    }
+
+    /// Replace the source tree.
+    pub fn set_spec(&mut self, spec: Snapshot) {
+        let old = std::mem::replace(&mut self.spec, spec);
+        tree::sync_to_disk(Some(&old), &self.spec, &self.src).expect("sync source");
+        self.snap = tree::snapshot(&self.src).expect("snapshot");
+    }
+
     pub fn raw(&self, with_blocks: bool) -> fmt06::Raw {
         fmt06::read_archive(&self.arch, with_blocks)
     }
@@ -306,4 +339,23 @@ impl World {
             self.delete(&[], dry)
         }
     }
+}
+
+/// Options under which [many_hunks_world] gives a band of more than 10 000 index hunks.
+pub const MANY_HUNKS_OPTS: Opts = Opts { hunk: 1, block: 64, cap: 16 };
+
+/// A flat tree of 10 040 small files: with one entry per hunk its index crosses from the hunk
+/// subdirectory i/00000 into i/00001 (HUNKS_PER_SUBDIR), and its few hundred combined blocks
+/// are referenced from hunks on both sides of that boundary.
+pub fn many_hunks_world(tag: &str, seed: u64) -> World {
+    let mut spec = Snapshot::new();
+    spec.insert("/".into(), tree::Node::dir());
+    for i in 0..10_040u32 {
+        let len = 1 + (i % 5) as usize;
+        let content: Vec<u8> = (0..len).map(|j| (seed as u32 ^ i.wrapping_mul(2654435761) >> (j * 5)) as u8).collect();
+        let mut n = tree::Node::file(content);
+        n.mtime_s = 1_600_000_000 + i as i64;
+        spec.insert(format!("/f{i:05}"), n);
+    }
+    World::with_spec(tag, spec, GenParams::small(64, 16), seed)
 }
